@@ -258,6 +258,13 @@ BSendPing ==
   /\ sets' = IF sets.gone /\ WriteErrorEndsReader THEN [sets EXCEPT !.dead = TRUE] ELSE sets
   /\ UNCHANGED <<rel, iw, mf, cont, ctl, ledg, aled, sentLog, dlvLog, nSend, hp, pings, goneAway, aClosed>>
 
+\* the receiver resets a stream (refuses an upload, cancels a download): the RST_STREAM travels to A in the other direction.
+\* What A has on its way for that stream still arrives at the relay, still counts against A's windows - the connection's
+\* above all - and is credited back like everything else (RFC 9113 5.1, 6.9); this direction's state is not touched
+BSendRst(s) ==
+  /\ nCtl < MaxCtl /\ nCtl' = nCtl + 1
+  /\ UNCHANGED <<rel, iw, mf, cont, ctl, ledg, aled, sentLog, dlvLog, nSend, hp, conn>>
+
 (* ---- writer goroutine: output channel -> B (relay.go:165-184) ---- *)
 \* what the writer puts on the wire next: a DATA frame that has waited is cut to the limit now in force
 \* (queued_frames.go queuedDataFrame.send)
@@ -366,6 +373,7 @@ Next ==
   \/ \E s \in Streams : ASendPrio(s)
   \/ \E d \in Pings : ASendPing(d) \/ BRecvPing(d)
   \/ ASendGoAway \/ BRecvGoAway \/ ASendClose \/ ASendCloseFull \/ BSendPing \/ ASendUnknown
+  \/ \E s \in Streams : BSendRst(s)
   \/ (WithSettings /\ ASendSettings) \/ ARecvSettings \/ BRecvSettings \/ ARecvAck \/ BRecvAck \/ RelayAck \/ WriterAck
   \/ (WithSettings /\ BCtl([t |-> "SE", s |-> 0, v |-> 0]))
   \/ WriterSend
